@@ -218,7 +218,8 @@ def stream_run(seed):
                 r, w = await net.open_connection("127.0.0.1", 21)
                 await asyncio.sleep(0)
                 own = StreamThrottle.from_limits(rng.choice([8, 16, 64, None]), rng.choice([16, 64, None]))
-                st = ThrottleStreamIO(r, w, throttles={"shared": shared, "own": own})
+                # (a stream timeout bounds the read or write itself, never the pause a limit imposes before it)
+                st = ThrottleStreamIO(r, w, throttles={"shared": shared, "own": own}, timeout=rng.choice([None, None, 0.0625, 0.375]))
                 sr, sw = srv_streams[-1]
                 direction = rng.choice(["write", "read"])
                 chunks = [rng.choice([1, 2, 4, 7, 16]) for _ in range(rng.choice([3, 6, 10]))]
@@ -276,7 +277,14 @@ def e2e_run(seed):
             ukw["write_speed_limit_per_connection"] = on["user_conn"]
         ckw = {"read_speed_limit": on["client"]} if on["client"] else {}
     users = [{"id": "u1", "login": "u1", "pw": "", "max": 0, "perms": [], "home": [], "base": ["A"], "kwargs": ukw}]
-    cfg = gen.std_cfg(ns=4, users=users, block=8, server_kwargs=skw)
+    # a socket timeout much shorter than the pauses the limits impose, on the side that is being limited (the other side, made to
+    # wait by it, has none): the timeout is for the peer's silence, not for the limiter's
+    tmo = rng.choice([None, None, 250])
+    srv_limited = any(on[lv] for lv in LEVELS[:4])
+    sock = tmo if tmo and srv_limited and not on["client"] else 0
+    if tmo and on["client"] and not srv_limited:
+        ckw["socket_timeout"] = tmo / 1000
+    cfg = gen.std_cfg(ns=4, users=users, block=8, server_kwargs=skw, sock=sock)
     tree = {"d": [["A"]], "f": [{"p": ["A", "f"], "c": [5] * size}]}
     tap = Tap()
     tap.slack = (2 * nclients - 1) * 64
